@@ -3,6 +3,7 @@ package exec
 import (
 	"fmt"
 	"math"
+	"sort"
 	"strings"
 
 	zerr "github.com/DemoHn/Zn/pkg/error"
@@ -469,8 +470,15 @@ func evalImportStmt(vm *r.VM, node *syntax.ImportStmt) error {
 	if extModule != nil {
 		// import all symbols to current module's importRefs
 		if len(node.ImportItems) == 0 {
-			for name, val := range extModule.GetAllExportValues() {
-				if err := vm.DeclareExternalElement(r.NewIDName(name), val, extModule); err != nil {
+			// declare the names in sorted order, so that a clash always reports the same name
+			exports := extModule.GetAllExportValues()
+			names := make([]string, 0, len(exports))
+			for name := range exports {
+				names = append(names, name)
+			}
+			sort.Strings(names)
+			for _, name := range names {
+				if err := vm.DeclareExternalElement(r.NewIDName(name), exports[name], extModule); err != nil {
 					return err
 				}
 			}
